@@ -620,6 +620,24 @@ Proof.
   - eauto.
 Qed.
 
+(** a free lock is obtained at once: with no lock file a Lock call at the top of its loop
+    creates the file and returns nil by its own two steps, in no time ... *)
+Theorem free_lock_obtained_at_once c s t ec : file s = None -> cs s t = CTry ec -> lastcreate s < now s ->
+  exists s2, run c s [LTryCreate t; LWriteMeta t] = Some s2 /\ cs s2 t = CHolding (nexti s) /\
+             file s2 = Some (nexti s) /\ now s2 = now s.
+Proof.
+  intros Hf Hc Hl. cbn [run step]. rewrite Hc, Hf. cbn [cs lastcreate now]. rewrite upd_eq.
+  apply Z.ltb_lt in Hl. rewrite Hl. eexists. split; [reflexivity|]. cbn. rewrite upd_eq. auto.
+Qed.
+
+(** ... and a lock that is free stays free until some Lock call creates the file: nothing
+    else (no heartbeat, no waiter, no Unlock, no kill) makes a lock file appear *)
+Theorem only_create_makes_lock_file c s l s' : step c s l = Some s' -> file s = None -> file s' <> None ->
+  exists t, l = LTryCreate t.
+Proof.
+  intros Hs Hf Hn. inv_step Hs; cbn [file set_cs] in Hn; try congruence; eauto.
+Qed.
+
 (** a waiter never sleeps longer than the longer of the two intervals: in every state of
     every run (any labels, kills included) a sleeping Lock call is due to look at the lock
     file again within max(poll, esleep) *)
